@@ -248,6 +248,7 @@ func runCase(c *hl.Ctx, cf Cfg, msgs []Msg) bool {
 			}
 		}
 		// (ii) the peer Conn reads the same sequence: ReadMessage for even i, NextReader with 1-byte reads for odd i
+		var keptPayloads [][]byte // every payload returned is compared again after all later reads
 		for i, m := range msgs {
 			want := payloadOf(m, i)
 			var mt int
@@ -281,7 +282,14 @@ func runCase(c *hl.Ctx, cf Cfg, msgs []Msg) bool {
 				key, what = "readback/"+classOf(cf, m), fmt.Sprintf("message %d %v: the peer read {type %d, %d bytes, equal=%v, err=%v}, written {type %d, %d bytes}; %s", i, m, mt, len(got), bytes.Equal(got, want), err, wt, len(want), desc)
 				return
 			}
+			keptPayloads = append(keptPayloads, got)
 			c.Distinct("states", "rcv:"+connState(rcv))
+		}
+		for i, m := range msgs {
+			if !bytes.Equal(keptPayloads[i], payloadOf(m, i)) {
+				key, what = "readback/payload-changed-by-later-read", fmt.Sprintf("message %d %v was intact when returned but differs after the later reads; %s", i, m, desc)
+				return
+			}
 		}
 		if _, _, err := rcv.ReadMessage(); err == nil {
 			key, what = "readback/extra-message", "the peer read one more message than was written; "+desc
